@@ -456,7 +456,8 @@ class _Conc:
 
     _TAGS = {"int": lambda x: isinstance(x, int) and not isinstance(x, bool), "slice": lambda x: isinstance(x, slice),
              "str": lambda x: isinstance(x, str), "tuple": lambda x: isinstance(x, tuple),
-             "none": lambda x: x is None}
+             "none": lambda x: x is None, "dict": lambda x: isinstance(x, dict),
+             "list": lambda x: isinstance(x, list)}
 
     def is_tag(self, x, tag):
         return self._TAGS[tag](x)
